@@ -1098,7 +1098,9 @@ class PyCdlib:
                     # or symlinks get an inode, but it is always set to length 0
                     # and location 0 and not actually written out.  This is so
                     # that we can 'link' everything through the Inode.
-                    if len_to_use == 0 or is_symlink:
+                    # The same goes for Rock Ridge relocation placeholders (CL),
+                    # which carry the length of a directory but have no data.
+                    if len_to_use == 0 or is_symlink or rr_cl:
                         len_to_use = 0
                         extent_to_use = 0
 
